@@ -10,6 +10,18 @@ COMPONENTS = {
     "safely_unquote_query_item": "query",
     "safely_unquote_fragment": "fragment",
 }
+# the value of a query item has its own table since repair 16e930b ('=' is plain text after the first '='); trees
+# without that binding (the reviewed commit, older variants) are analysed with the four components above
+OPTIONAL_COMPONENTS = {"safely_unquote_query_value": "query value"}
+
+
+def sync_components(repo):
+    q = repo.mod("quote")
+    for name, comp in OPTIONAL_COMPONENTS.items():
+        if name in q.bindings:
+            COMPONENTS[name] = comp
+        else:
+            COMPONENTS.pop(name, None)
 
 
 # ----------------------------------------------------------------------
@@ -280,6 +292,7 @@ def unquote_bindings(repo):
     Also checks that unquote / _generate_unquoted_parts forward only_printable and unsafe
     unchanged down to _unquote_impl (fail-closed otherwise)."""
     q = repo.mod("quote")
+    sync_components(repo)
     out = {}
     for name in COMPONENTS:
         try:
